@@ -10,7 +10,9 @@ Decided on the real `recovery_factor` (both modes), `fvf_scale`, the scaling-fac
             in-place mode: non-decreasing over the first steps;
   scale     the code's pseudopressure scaling factor makes d(rho/rho_i)/d(m~) = 1 at p_i for a
             thermodynamically consistent table (derivatives as symbols);
-  balance   ideal reservoir: sum_j (x_new - x_old)_j = -(dt/h^2) x_new_0 exactly, fvf_scale = 1 - p_f/p_i.
+  balance   ideal reservoir: sum_j (x_new - x_old)_j = -(dt/h^2) x_new_0 exactly, fvf_scale = 1 - p_f/p_i;
+            single-phase reservoir with pressure-independent diffusivity and an arbitrary schedule: the stored field over
+            nodes 1.. changes by exactly the flux through the face next to the fracture (no mass appears in place).
 """
 from __future__ import annotations
 
@@ -232,6 +234,97 @@ def job_balance(job, nx):
                   bound="any pressures")
 
 
+class ConstAlphaFluid(FluidStub):
+    """FlowProperties contract stub with a pressure-independent diffusivity (one positive symbol)."""
+
+    def __init__(self):
+        super().__init__()
+        self.a0 = fresh("alpha0", pos=True)
+
+    def alpha(self, m):
+        if isinstance(m, SymArray):
+            return m._map(lambda _v: self.a0, "f8")
+        return self.a0
+
+
+def replay_balance_sp(model, nx=3, nt=3):
+    """Real runs (public API, duck-typed constant-diffusivity fluid, the model's schedule; the model's steps and the
+    same steps scaled up): at every step the change of the stored field over nodes 1.. must equal the flux through
+    the face next to the fracture.  The havoc'd level of the symbolic step is not injected."""
+    import numpy as np
+    for scale in (1.0, 30.0, 1000.0):
+        m2 = dict(model)
+        m2.pop("__uf__", None)
+        for k in range(1, nt):
+            m2[f"dt{k}"] = scale * float(model.get(f"dt{k}") or 10.0 ** (-k))
+        res, t, fluid = _real_run(m2, "SinglePhaseReservoir", nx, nt, True)
+        pp = np.asarray(res.pseudopressure, float)
+        for i in range(nt - 1):
+            prev = np.minimum(pp[i], fluid.m_i)
+            lhs = float(np.sum(pp[i + 1][1:] - prev[1:]))
+            rhs = float((t[i + 1] - t[i]) * nx ** 2 * (pp[i + 1][0] - pp[i + 1][1]))
+            if abs(lhs - rhs) > 1e-9 * (abs(lhs) + abs(rhs)) + 1e-12 * fluid.m_i:
+                return True, {"what": f"SinglePhaseReservoir nx={nx}, constant diffusivity, times {t.tolist()}, m_f={fluid._mf}, m_i={fluid.m_i}: step {i}: "
+                                      f"sum over nodes 1.. of (new - stored previous) = {lhs!r} but the flux through the first face is {rhs!r} "
+                                      f"(previous level {pp[i].tolist()}, new level {pp[i + 1].tolist()})",
+                              "inputs": {k: v for k, v in model.items() if k != "__uf__"}}
+    return False, {"what": "discrete mass balance holds on the real runs", "inputs": {k: v for k, v in model.items() if k != "__uf__"}}
+
+
+def job_balance_sp(job, nx, reachable):
+    """Single-phase reservoir, pressure-independent diffusivity, arbitrary frac-face schedule: the stored field changes
+    by exactly what crosses the face next to the fracture (discrete mass conservation of the interior and outer rows).
+    reachable=False: step from an arbitrary level inside C01's bounds; True: first two steps from the initial state."""
+    mod = load_reservoir()
+    job.encoded(mod, "SinglePhaseReservoir.simulate", "_build_matrix", "SinglePhaseReservoir.alpha_scaled")
+    job.stub("fluid*: FlowProperties contract stub with constant diffusivity", "linear solve: ideal solve A x = b")
+    nt = 3
+    tag = f"balance-singlephase[nx={nx},{'from the initial state' if reachable else 'arbitrary level'}]"
+    hold = {}
+
+    def pol(rec):
+        if rec["index"] == 0 and not reachable:
+            c = ctx()
+            fl = hold["fluid"]
+            from ..sx.sym import s_min
+            lo = list(fl._mf.values())[0]
+            for x in rec["x"]:
+                c.assume((lift(x) >= lift(lo)).node)
+                c.assume((lift(x) <= lift(fl.m_i)).node)
+            return 0
+        SS.exact_solve(rec)
+        return 0
+
+    def run():
+        SS.LinSolve.reset(pol)
+        SS.reset_names()
+        t, _ = times(nt)
+        fluid = ConstAlphaFluid()
+        hold["fluid"] = fluid
+        r = mod.SinglePhaseReservoir(Q(nx), fresh("pf"), fresh("pi", pos=True), fluid)
+        r.simulate(t, pressure_fracface=SymArray([fresh(f"pfs{k}") for k in range(nt)], "f8"))
+        return rows_of(r), t, fluid
+
+    rp = (replay_balance_sp, {"nx": nx, "nt": nt})
+    for k, pr in enumerate(paths(job, run, [], max_paths=16)):
+        if pr.exc is not None:
+            job.errors.append(f"{tag} raised {pr.exc!r}")
+            continue
+        rows, t, fluid = pr.value
+        from ..sx.sym import s_min
+        for i in range(nt - 1):
+            if i == 0 and not reachable:
+                continue        # level 1 is the havoc'd one here: only the step that starts from it is a solve
+            dt = t.d[i + 1] - t.d[i]
+            lhs = Q(0)
+            for j in range(1, nx):
+                lhs = lhs + rows[i + 1][j] - s_min(rows[i][j], fluid.m_i)
+            rhs = dt * Q(nx * nx) * (rows[i + 1][0] - rows[i + 1][1])
+            job.prove(f"{tag}/step {i}: change of the stored field over nodes 1.. == flux through the first face[path{k}]",
+                      pr.pc + [not_close(lhs, rhs, abs_tol=Fraction(0))], bound=f"nx={nx}, any dt, any schedule", replay=rp, elim=True)
+        job.prove(f"{tag}/reach[path{k}]", pr.pc, expect="sat", elim=True)
+
+
 def job_flux_is_boundary_derivative(job, nx):
     """Shared with C02-L5: the flux-mode recovery is FVF scale x trapezoid-in-time of the exact boundary
     derivative for a quadratic profile - the quantity whose in-place counterpart is the mass change."""
@@ -246,6 +339,9 @@ def jobs(tier):
         out.append((f"flux-{cls[:6]}-3", lambda j, c=cls: job_flux_monotone(j, c, 3)))
     for nx in ((3, 5) if tier == "quick" else (3, 4, 5, 8)):
         out.append((f"balance-{nx}", lambda j, n=nx: job_balance(j, n)))
+    for nx in ((3, 4) if tier == "quick" else (3, 4, 5, 6)):
+        out.append((f"balance-sp-{nx}", lambda j, n=nx: job_balance_sp(j, n, False)))
+        out.append((f"balance-sp-reach-{nx}", lambda j, n=nx: job_balance_sp(j, n, True)))
     if tier != "quick":
         out += [("ceiling-5-3", lambda j: job_zero_and_ceiling(j, 5, 3)), ("ceiling-3-3", lambda j: job_zero_and_ceiling(j, 3, 3)),
                 ("trapezoid-6", lambda j: job_trapezoid(j, 6))]
